@@ -47,9 +47,21 @@ def user_agent(k: int, variant: str = "plain") -> bytes:
     return b"/verif:%d/" % k
 
 
-def version_fields(k: int, variant: str = "plain") -> dict:
-    """the k-th distinct version message of the harness (all fields depend on k), as the dict the node keeps"""
+PROTOCOL_VERSIONS = (0, 209, 31402, 60000, 60001, 60002, 70001, 70015, 70016, 2 ** 31 - 1, 2 ** 32 - 1)
+
+
+def version_fields(k: int, variant: str = "plain", **over) -> dict:
+    """the k-th distinct version message of the harness (all fields depend on k), as the dict the node keeps;
+    `over` replaces integer / bool fields (protocol_version, services, start_height, relay, ...)"""
     ua = user_agent(k, variant)
+    f = _version_fields(k, ua)
+    for name, v in over.items():
+        assert name in f and name not in ("user_agent", "user_agent_bytes", "addr_recv_ip_addr", "addr_trans_ip_addr"), name
+        f[name] = v
+    return f
+
+
+def _version_fields(k: int, ua: bytes) -> dict:
     f = {
         "protocol_version": 70015 + (k % 3), "services": 1 + 8 * (k % 2), "timestamp": 1700000000 + k,
         "addr_recv_services": k % 5, "addr_recv_ip_addr": IP.decode("ascii"), "addr_recv_port": 8333 + k % 100,
@@ -62,8 +74,8 @@ def version_fields(k: int, variant: str = "plain") -> dict:
     return f
 
 
-def version_payload(k: int, variant: str = "plain") -> bytes:
-    f = version_fields(k, variant)
+def version_payload(k: int, variant: str = "plain", **over) -> bytes:
+    f = version_fields(k, variant, **over)
     ua = user_agent(k, variant)
     assert len(ua) < 253
     return (f["protocol_version"].to_bytes(4, "little") + f["services"].to_bytes(8, "little")
@@ -132,6 +144,24 @@ def parse_addr(raw: bytes) -> dict:
                        "port": int.from_bytes(raw[29 + 30 * j:31 + 30 * j], "big")} for j in range(n)]}
 
 
+def getheaders_payload(k: int) -> bytes:
+    n = k % 3                       # 0, 1 or 2 locator hashes
+    out = (70015 - k % 2).to_bytes(4, "little") + bytes([n])
+    for j in range(n):
+        out += hashlib.sha256(b"loc%d.%d" % (k, j)).digest()
+    return out + (bytes(32) if k % 2 else hashlib.sha256(b"stop%d" % k).digest())
+
+
+def parse_getheaders(raw: bytes) -> dict:
+    n = raw[4]
+    assert n < 253 and len(raw) == 5 + 32 * n + 32
+    f = {"protocol_version": int.from_bytes(raw[:4], "little"), "hash_count": n}
+    if n:
+        f["block_header_hashes"] = [raw[5 + 32 * j:37 + 32 * j].hex() for j in range(n)]
+    f["stop_hash"] = raw[5 + 32 * n:].hex()
+    return f
+
+
 def expected_parse(command: bytes, raw: bytes):
     """what the node is expected to keep as the parsed payload of a message of the harness catalogue"""
     if command == b"version":
@@ -142,4 +172,12 @@ def expected_parse(command: bytes, raw: bytes):
         return parse_inv(raw)
     if command == b"addr":
         return parse_addr(raw)
+    if command == b"getheaders":
+        return parse_getheaders(raw)
+    if command == b"feefilter":
+        assert len(raw) == 8
+        return {"feerate": int.from_bytes(raw, "little")}
+    if command == b"sendcmpct":
+        assert len(raw) == 9
+        return {"announce": raw[0], "version": int.from_bytes(raw[1:], "little")}
     return None            # verack, getaddr, mempool, unknown commands: no parser in the node
